@@ -34,10 +34,14 @@ func (c *captureConn) bytes() []byte {
 	defer c.mu.Unlock()
 	return append([]byte{}, c.buf...)
 }
-func (c *captureConn) Read(b []byte) (int, error)         { select {} }
-func (c *captureConn) Close() error                       { return nil }
-func (c *captureConn) LocalAddr() net.Addr                { return &net.TCPAddr{IP: net.IPv4(10, 0, 0, 200), Port: 179} }
-func (c *captureConn) RemoteAddr() net.Addr               { return &net.TCPAddr{IP: net.IPv4(10, 0, 0, 201), Port: 179} }
+func (c *captureConn) Read(b []byte) (int, error) { select {} }
+func (c *captureConn) Close() error               { return nil }
+func (c *captureConn) LocalAddr() net.Addr {
+	return &net.TCPAddr{IP: net.IPv4(10, 0, 0, 200), Port: 179}
+}
+func (c *captureConn) RemoteAddr() net.Addr {
+	return &net.TCPAddr{IP: net.IPv4(10, 0, 0, 201), Port: 179}
+}
 func (c *captureConn) SetDeadline(t time.Time) error      { return nil }
 func (c *captureConn) SetReadDeadline(t time.Time) error  { return nil }
 func (c *captureConn) SetWriteDeadline(t time.Time) error { return nil }
